@@ -68,6 +68,8 @@ CLAIMED.update({
     "C10": dict(_ts("windows over programs with mutually dependent (gate-blocked) tasks, more work than workers, Thread.start() failures, tasks queued before start(); pool sizes max 1-2 (3 thorough), min 0..max", "DESIGN.md 3/C10"),
                 technique="CrossHair on ThreadPool.__init__ (argument validation / clamping, all ints) + " + TS, engine="TS+CH"),
     "C11": _ts("lifecycle programs over {start, stop, enqueue, join, join(timeout), wait} up to 10 operations with instantaneous, failing and gate-blocked tasks and a second client, windows at every operation", "DESIGN.md 3/C11"),
+    "C12": dict(_ts("lifecycle histories {construct, serve in a thread, handle 1-2 requests, shutdown, server_close} with PooledJSONRPCServer.server_close/process_request translated from their AST and BaseServer.serve_forever/shutdown as primitives; isolation argued by composition with C13 and C09", "DESIGN.md 3/C12"),
+                technique="CrossHair on process_request (hand-off exactly once) + " + TS, engine="TS+CH"),
     "C16": _ts("executor || registrar || observer programs over one FutureResult, tasks that return or raise, callbacks that return, raise or have the wrong arity, one or two registrations", "DESIGN.md 3/C16"),
 })
 
